@@ -136,6 +136,24 @@ fn verif_side_c15() {
             check("URShift", format!("{} >>> {}", ll, ls), (to_uint32_spec(l) >> n) as f64);
         }
     }
+    // compound assignment forms go through their own operator table in the compiler
+    for &l in &lefts {
+        for &sft in &[0.0f64, 1.0, 4.0, 31.0, 33.0, -1.0] {
+            let (ll, ls) = (js_lit(l), js_lit(sft));
+            let il = to_int32_spec(l);
+            let n = to_uint32_spec(sft) & 31;
+            check("LShift_assign", format!("let x = {}; x <<= {}; x", ll, ls), il.wrapping_shl(n) as f64);
+            check("RShift_assign", format!("let x = {}; x >>= {}; x", ll, ls), (il >> n) as f64);
+            check("URShift_assign", format!("let x = {}; x >>>= {}; x", ll, ls), (to_uint32_spec(l) >> n) as f64);
+            check("RShift_assign_member", format!("let o = {{ p: {} }}; o.p >>= {}; o.p", ll, ls), (il >> n) as f64);
+        }
+        let ll = js_lit(l);
+        let il = to_int32_spec(l);
+        check("BitOr_assign", format!("let x = {}; x |= 0; x", ll), il as f64);
+        check("BitAnd_assign", format!("let x = {}; x &= -1; x", ll), il as f64);
+        check("BitXor_assign", format!("let x = {}; x ^= 0; x", ll), il as f64);
+        check("BitOr_assign_element", format!("let a = [{}]; a[0] |= 0; a[0]", ll), il as f64);
+    }
     // parseInt's radix argument is converted with ToInt32 as well
     for (radix, digits, val) in [(2f64, "10", 2f64), (36.0, "z", 35.0), (16.0, "ff", 255.0), (10.0, "42", 42.0)] {
         for wrap in [0f64, 4294967296.0, -4294967296.0, 8589934592.0, 4294967296.0 * 1048576.0] {
